@@ -4,27 +4,47 @@ import vlib, dbcheck
 from vlib import Check
 
 
-def run(prop, tier, seed, plan, assumptions, rule, mc=None, nontrivial_key="statements"):
+def run(prop, tier, seed, plan, assumptions, rule, mc=None, nontrivial_key="statements", level="model_checking", extra=None):
     """plan: list of (kind, quick_segments, thorough_segments)"""
-    c = Check(prop, tier, seed, "model_checking")
+    c = Check(prop, tier, seed, level)
     wd = vlib.workdir(prop.lower())
     c.assumptions = assumptions
     if mc:
         dbcheck.model_check_txn(c, tier, mc[0] if tier == "quick" else mc[1])
     for kind, q, t in plan:
         n = q if tier == "quick" else t
-        per = 12
+        per = 12 if not kind.startswith("crash") else 4
         done = 0
         k = 0
         while done < n and not c.violations:
             m = min(per, n - done)
-            dbcheck.run_kind(c, wd, prop, kind, seed * 1000 + k, m)
+            dbcheck.run_kind(c, wd, prop, kind, seed * 1000 + k, m, extra=(extra or {}).get(kind, ()))
             done += m
             k += 1
     vlib.report_known(c, prop)
+    if any(k.startswith("crash") for k, _, _ in plan):
+        crash_witness(c, wd, prop)
     c.cov["rule"] = rule
     c.cov.setdefault("states", 1); c.cov.setdefault("transitions", 1)
     c.cov.setdefault("traces_validated_against_impl", 0)
     c.cov["distinct_nontrivial"] = c.cov.get(nontrivial_key, 0)
     shutil.rmtree(wd, ignore_errors=True)
     return c.finish()
+
+
+def crash_witness(c, wd, prop):
+    """Witness of the two checkpoint findings: histories with checkpoints at any point (also while a session is open),
+    validated WITHOUT the deviation CheckpointNotAtomic.  A rejection shows the findings are still there."""
+    import os
+    from vlib import axv, run_tlc, write_cfg, tla_set
+    tp = os.path.join(wd, "crash-witness.ndjson")
+    axv(["crash", "--seed", 7, "--segments", 6, "--points", 80, "--unsafe-checkpoints", "--out", tp, "--dir", os.path.join(wd, "cw")], timeout=1200)
+    cfg = write_cfg(os.path.join(wd, "DbTrace-witness.cfg"), "TSpec", {"Dev": tla_set(dbcheck.AS_BUILT[:2])}, invariants=["UniqueHolds"], postcondition="Accepted")
+    r = run_tlc("DbTrace", cfg, workers=1, dfs=True, env={"TRACE": tp}, timeout=900, name="DbTrace-crashwitness")
+    rejected = not (r.ok and not r.postcondition_false)
+    for f in vlib.load_known():
+        if f["id"] in ("CheckpointNotAtomic", "CheckpointLeaksOpenTransaction") and (f["property"] == prop or prop in f.get("also_affects", [])):
+            if rejected:
+                c.known(f["id"], "%s [%s] witness: axv crash --seed 7 --unsafe-checkpoints (first rejected crash read: %s)" % (f["what_fails"], f["call_site"], (r.error_text or "")[:160]))
+            else:
+                c.notes.append("recorded finding %s no longer reproduces (stale entry?)" % f["id"])
